@@ -489,6 +489,18 @@ impl<H: DnsHandle> DnssecDnsHandle<H> {
             "validating rrset with dnskeys",
         );
 
+        // RRSIGs covering DNSKEY can arrive without any DNSKEY record. There is nothing to validate
+        // them against: the (empty) RRset is bogus, and so is the signature that claims to cover it.
+        // (Without this check every `all()` below is vacuously true and the code ends up popping
+        // from an empty `dnskey_proofs`.)
+        if rrset.records.is_empty() {
+            return Ok(RrsetProof {
+                proof: Proof::Bogus,
+                adjusted_ttl: None,
+                rrsig_index: (!rrset.signatures.is_empty()).then_some(0),
+            });
+        }
+
         let mut dnskey_proofs: Vec<(Proof, Option<u32>, Option<usize>)> =
             vec![(Proof::Bogus, None, None); rrset.records.len()];
 
